@@ -376,3 +376,76 @@ Section RenameExec.
         * now rewrite IHc.
   Qed.
 End RenameExec.
+
+(* ---- requests ---- *)
+Section RenameExecute.
+  Variable sg : name -> name.
+  Hypothesis sg_inj : injective sg.
+
+  Lemma doc_frags_rename d : doc_frags (rename_doc sg d) = map (rename_frag sg) (doc_frags d).
+  Proof. induction d as [| [o | f] d IH]; simpl; [reflexivity | exact IH | now rewrite IH]. Qed.
+  Lemma doc_ops_rename d : doc_ops (rename_doc sg d) = map (rename_op sg) (doc_ops d).
+  Proof. induction d as [| [o | f] d IH]; simpl; [reflexivity | now rewrite IH | exact IH]. Qed.
+
+  Lemma pick_op_rename d opname : pick_op (rename_doc sg d) opname = option_map (rename_op sg) (pick_op d opname).
+  Proof.
+    unfold pick_op. rewrite doc_ops_rename. destruct opname as [n |].
+    - induction (doc_ops d) as [| o ops IH]; simpl; [reflexivity |].
+      destruct (op_name o) as [m |]; simpl; [destruct (bytes_eqb m n); [reflexivity | exact IH] | exact IH].
+    - destruct (doc_ops d) as [| o [| o2 ops]]; reflexivity.
+  Qed.
+
+  Lemma effective_vars_rename o sup :
+    effective_vars (rename_op sg o) (rename_keys sg sup) = rename_keys sg (effective_vars o sup).
+  Proof.
+    unfold effective_vars, rename_op. simpl.
+    induction (op_vars o) as [| vd vds IH]; simpl; [reflexivity |].
+    rewrite IH. unfold rename_keys at 3. rewrite map_app. f_equal.
+    rewrite (assoc_rename_keys sg sg_inj). destruct (assoc (vd_name vd) sup); [reflexivity |].
+    destruct (vd_default vd) as [dv |]; simpl; [| reflexivity].
+    pose proof (lit_json_rename sg sg_inj [] dv) as H. simpl in H. rewrite H.
+    destruct (lit_json [] dv); reflexivity.
+  Qed.
+
+  Theorem rename_transparent_proof : forall S, schema_closed S = true ->
+    forall fuel U md d opname supplied,
+    execute fuel S U md (rename_doc sg d) opname (rename_supplied sg supplied) = execute fuel S U md d opname supplied.
+  Proof.
+    intros S HS fuel U md d opname supplied. unfold execute.
+    rewrite pick_op_rename. destruct (pick_op d opname) as [o |]; simpl; [| reflexivity].
+    destruct (root_type S (op_kind o)) as [rt |]; [| reflexivity].
+    assert (E : effective_vars (rename_op sg o) match rename_supplied sg supplied with JObj m => m | _ => [] end =
+                rename_keys sg (effective_vars o match supplied with JObj m => m | _ => [] end)).
+    { destruct supplied; simpl; try apply (effective_vars_rename o []). apply effective_vars_rename. }
+    rewrite E. destruct (find_entity U rt []) as [root |]; [| reflexivity].
+    rewrite doc_frags_rename.
+    pose proof (proj1 (exec_rename_all sg sg_inj S HS U (doc_frags d)
+                         (effective_vars o match supplied with JObj m => m | _ => [] end) md fuel)) as H.
+    unfold P_sels in H. unfold rename_sels. rewrite H. reflexivity.
+  Qed.
+End RenameExecute.
+
+(* document size (the default fuel) is unchanged as well *)
+Lemma sel_size_rename sg : forall s, sel_size (rename_sel sg s) = sel_size s.
+Proof.
+  fix IH 1. intros [a n args dirs ss | c dirs ss | n dirs]; simpl; try reflexivity.
+  - f_equal. induction ss as [| x ss IHs]; simpl; [reflexivity |]. now rewrite IH, IHs.
+  - f_equal. induction ss as [| x ss IHs]; simpl; [reflexivity |]. now rewrite IH, IHs.
+Qed.
+
+Lemma doc_size_rename sg d : doc_size (rename_doc sg d) = doc_size d.
+Proof.
+  unfold doc_size. induction d as [| [o | f] d IH]; simpl; [reflexivity | |].
+  - rewrite IH. f_equal. unfold sels_size, rename_sels.
+    induction (op_sels o) as [| x ss IHs]; simpl; [reflexivity |]. now rewrite sel_size_rename, IHs.
+  - rewrite IH. f_equal. unfold sels_size, rename_sels.
+    induction (fr_sels f) as [| x ss IHs]; simpl; [reflexivity |]. now rewrite sel_size_rename, IHs.
+Qed.
+
+Corollary rename_transparent_default sg : injective sg -> forall S, schema_closed S = true ->
+  forall U md d opname supplied,
+  execute_default S U md (rename_doc sg d) opname (rename_supplied sg supplied) = execute_default S U md d opname supplied.
+Proof.
+  intros Hi S HS U md d opname supplied. unfold execute_default, default_fuel.
+  rewrite doc_size_rename. now apply rename_transparent_proof.
+Qed.
